@@ -1609,6 +1609,10 @@ pub struct IntegrityReport {
 
 /// Get current Unix timestamp
 fn current_timestamp() -> u64 {
+    #[cfg(feature = "verif-hooks")]
+    if let Some(secs) = crate::verif_hooks::timestamp_override() {
+        return secs;
+    }
     SystemTime::now()
         .duration_since(UNIX_EPOCH)
         .map(|d| d.as_secs())
